@@ -63,7 +63,7 @@ sign_case = st.fixed_dictionaries({
     "d": gen.scalar_d(), "id": id_spec, "mlen": st.one_of(st.integers(0, 300), st.sampled_from([0, 1, 55, 56, 63, 64, 65, 119, 120, 128])),
     "seed": st.integers(0, 1 << 32), "cuts": st.lists(st.integers(0, 300), max_size=4),
     "iface": st.sampled_from(["sign", "do_sign", "fixlen", "ctx", "ctx", "ctx_fixlen", "ctx_reset", "ctx_many"]),
-    "k": _k_spec(), "reject_first": st.sampled_from(["none", "none", "ge_n", "zero", "max"]),
+    "k": _k_spec(), "reject_first": st.sampled_from(["none", "none", "ge_n", "zero", "max", "eq_n"]),
     "fixlen": st.sampled_from([70, 71, 72]), "dgst_hi": st.booleans(),
     # digest-level interfaces only: the digest is chosen for the scripted nonce so that r = 0 or r + k = n (step A5 must redraw)
     "aim": st.sampled_from(["none", "none", "none", "r-zero", "rk-n", "rk-n"])})
@@ -85,6 +85,8 @@ def _script_for(k, reject_first):
         pre = bytes(32)
     elif reject_first == "max":
         pre = b"\xff" * 32
+    elif reject_first == "eq_n":
+        pre = M.N.to_bytes(32, "little")          # exactly n: the first value outside [1, n-1]
     return pre + k.to_bytes(32, "little")
 
 
